@@ -83,6 +83,11 @@ func c17GenSet(seed int64, idx int, tag string) *yang.ModSet {
 			yang.S("list", "st-enum-list", yang.S("key", "name"),
 				yang.S("leaf", "name", yang.S("type", "enumeration", yang.S("enum", "half", yang.S("status", "obsolete")), yang.S("enum", "full"))),
 				yang.S("leaf", "weight", yang.S("type", "uint8"))),
+			// decimal64 with many fraction digits and a range in parts: a value is inside or outside, however close
+			yang.S("leaf", "ratio", yang.S("type", "decimal64", yang.S("fraction-digits", "12"), yang.S("range", "0 .. 1 | 2.5 .. 3.5"))),
+			yang.S("list", "ratio-list", yang.S("key", "r"),
+				yang.S("leaf", "r", yang.S("type", "decimal64", yang.S("fraction-digits", "10"), yang.S("range", "-1.5 .. 2.5"))),
+				yang.S("leaf", "weight", yang.S("type", "uint8"))),
 			// unions with two members of the same built-in type that differ in their restrictions
 			yang.S("leaf", "two-u", yang.S("type", "union", yang.S("type", "uint8", yang.S("range", "1..5")), yang.S("type", "uint8", yang.S("range", "10..20")))),
 			yang.S("list", "two-u-list", yang.S("key", "name"),
@@ -276,6 +281,7 @@ func sampleValue(r *core.Rng, t *yang.RType) (good string, bad string) {
 		"007", "08", "+5", "0100", "0x7", "0b11", "0o17", "1_0", "1e1",
 		// characters that are legal in a YANG string though a program may think otherwise (DEL, C1 controls, the
 		// replacement character, letters of several bytes), and two that are not
+		"1.000000000001", "2.499999999999", "3.5000000001", "-0.000000000001", "2.5000000001", "-1.5000000001", "0.999999999999", "3.5", "-1.5",
 		"a\u007fb", "k\u0085", "\u009f", "é日", "caf\ufffd", "a\x01b", "\ufffe"}
 	var goods, bads []string
 	for _, c := range cands {
